@@ -28,7 +28,7 @@ func init() {
 }
 
 func runC08(c *core.Ctx) {
-	c.Rule("C08.collect", "A1: Service.Collect: closed topic ⇒ restoreClosedTopic first (its error returned before anything else); then topics.Collect (error returned); then, and only then, PersistTopics∧level=OK ⇒ clearHistory (its error returned) else persistEventState; the event passed on is the collected event")
+	c.Rule("C08.collect", "A1: Service.Collect: closed topic ⇒ restoreClosedTopic first (its error returned before anything else); then topics.Collect; then on every path, also when a handler could not take the event, PersistTopics∧level=OK ⇒ clearHistory else persistEventState; the delivery error is returned before the storage error; the event passed on is the collected event")
 	c.Rule("C08.recheck", "A1/A5: restoreClosedTopic re-reads closedTopics[topic] after taking the write lock and restores only if it is still closed; the flag is cleared only after a successful restore")
 	c.Rule("C08.mapping", "A7: convertEventStateFromAlert, convertEventStateToAlert and EventState.AlertEventState copy the same set of fields (every field of the persisted record; ID is the key); EventState.Reset assigns every field of the record")
 	c.Rule("C08.seek", "A1 (shared with C15): the storage layer deletes a key (an event state, a topic bucket) only after comparing the key its cursor landed on with the key sought; see C15.seek")
@@ -134,32 +134,55 @@ func c08Collect(c *core.Ctx, sp *packages.Package) {
 				}
 				s = append(s, a)
 			}
-			r := "→err"
-			if len(p.Rets) == 1 && p.Rets[0] == "nil" {
-				r = "→nil"
-			} else if len(p.Rets) == 1 && strings.Contains(p.Rets[0], ".persistEventState(") {
-				r = "→persist-result"
+			// which error the caller gets; an error value that the path has tested to be nil is nil
+			asg := p.Assign()
+			r := "→other"
+			if len(p.Rets) == 1 {
+				switch k := p.Rets[0]; {
+				case k == "nil":
+					r = "→nil"
+				case strings.HasPrefix(k, "fmt.Errorf(") && strings.Contains(k, ".clearHistory("):
+					r = "→clear-err"
+				case strings.HasSuffix(k, ".clearHistory(&"+ev+")"):
+					r = "→clear-err"
+					if v, ok := asg["herr"]; ok && !v {
+						r = "→nil"
+					}
+				case strings.HasSuffix(k, ".persistEventState("+ev+")"):
+					r = "→persist-result"
+				case strings.HasSuffix(k, ".topics.Collect("+ev+")"):
+					r = "→collect-err"
+					if v, ok := asg["cerr"]; ok && !v {
+						r = "→nil"
+					}
+				case strings.HasSuffix(k, ".restoreClosedTopic("+ev+".Topic)"):
+					r = "→restore-err"
+				}
 			}
 			return strings.Join(s, ",") + r
 		},
+		// F96: when topics.Collect reports that one handler could not take the event, the topic has
+		// taken the state and the other handlers have been told: the state is recorded on every path
+		// behind topics.Collect, and the delivery error is what the caller gets.
 		Expect: func(a map[string]bool) string {
 			pre := ""
 			if a["closed"] {
 				if a["rerr"] {
-					return "restoreClosedTopic→err"
+					return "restoreClosedTopic→restore-err"
 				}
 				pre = "restoreClosedTopic,"
 			}
-			if a["cerr"] {
-				return pre + "topics.Collect→err"
-			}
+			rec, r := "persistEventState", "→persist-result"
 			if a["ok"] && a["persist"] {
+				rec, r = "clearHistory", "→nil"
 				if a["herr"] {
-					return pre + "topics.Collect,clearHistory→err"
+					r = "→clear-err"
 				}
-				return pre + "topics.Collect,clearHistory→nil"
 			}
-			return pre + "topics.Collect,persistEventState→persist-result"
+			if a["cerr"] {
+				r = "→collect-err"
+			}
+			return pre + "topics.Collect," + rec + r
 		}})
 	// persistEventState does nothing without PersistTopics and otherwise writes
 	if pf := c.Need("C08.collect", "services/alert", "Service", "persistEventState"); pf != nil {
